@@ -448,7 +448,7 @@ pub fn has_unguarded_alias_cycle(p: &Project) -> bool {
         let mut edges: BTreeMap<String, BTreeSet<String>> = BTreeMap::new();
         let mut i = 0;
         while i < toks.len() {
-            if toks[i] == "type" && i + 2 < toks.len() && toks[i + 1].chars().next().map(|c| c.is_alphabetic() || c == '_').unwrap_or(false) {
+            if toks[i] == "type" && i + 2 < toks.len() && toks[i + 1].chars().next().map(|c| c.is_alphabetic() || c == '_' || c == '$').unwrap_or(false) {
                 let name = toks[i + 1].clone();
                 let mut j = i + 2;
                 // skip type parameters
@@ -501,7 +501,7 @@ pub fn has_unguarded_alias_cycle(p: &Project) -> bool {
                         if depth == 0 && (t == "type" || t == "interface" || t == "parse" || t == "const" || t == "enum" || t == "export" || t == "declare" || t == "class" || t == "function" || t == "import") {
                             break;
                         }
-                        if depth == 0 && t.chars().next().map(|c| c.is_alphabetic() || c == '_').unwrap_or(false) && prev != "." && prev != "typeof" && prev != "keyof" {
+                        if depth == 0 && t.chars().next().map(|c| c.is_alphabetic() || c == '_' || c == '$').unwrap_or(false) && prev != "." && prev != "typeof" && prev != "keyof" {
                             // an identifier followed by `<` or `[` is a constructor application: guarded
                             let next = toks.get(j + 1).map(|x| x.as_str()).unwrap_or("");
                             let utility = matches!(t.as_str(), "Readonly" | "Partial" | "Required" | "Pick" | "Omit" | "Exclude" | "Record" | "keyof" | "readonly" | "extends" | "infer");
@@ -519,7 +519,7 @@ pub fn has_unguarded_alias_cycle(p: &Project) -> bool {
                     }
                 }
                 i = j;
-            } else if toks[i] == "interface" && i + 2 < toks.len() && toks[i + 1].chars().next().map(|c| c.is_alphabetic() || c == '_').unwrap_or(false) {
+            } else if toks[i] == "interface" && i + 2 < toks.len() && toks[i + 1].chars().next().map(|c| c.is_alphabetic() || c == '_' || c == '$').unwrap_or(false) {
                 // `interface B extends B, C {}`: the extends clause is followed without a guard as well
                 let name = toks[i + 1].clone();
                 let mut j = i + 2;
@@ -530,7 +530,7 @@ pub fn has_unguarded_alias_cycle(p: &Project) -> bool {
                         "extends" => in_extends = true,
                         "<" => angle += 1,
                         ">" => angle -= 1,
-                        t if in_extends && angle == 0 && t.chars().next().map(|c| c.is_alphabetic() || c == '_').unwrap_or(false) => {
+                        t if in_extends && angle == 0 && t.chars().next().map(|c| c.is_alphabetic() || c == '_' || c == '$').unwrap_or(false) => {
                             edges.entry(name.clone()).or_default().insert(t.to_string());
                         }
                         _ => {}
